@@ -30,7 +30,7 @@ RULE = ("seeded random graphs: grid with one grid meter or 1-4 arbitrary success
         "behind a CHP meter. distinct = canonical graph+assignment JSON; non-trivial = >=2 device classes present "
         "and >=1 meter")
 REQUIRED_BUCKETS = ["no-grid-meter", "single-grid-meter", "several-grid-successors", "nested-meters",
-                    "device-directly-under-grid", "mixed-meter", "dedicated-meter", "load-only-meter", "has-chp",
+                    "device-directly-under-grid", "grid-meter-over-one-device-kind-with-building-load", "mixed-meter", "dedicated-meter", "load-only-meter", "has-chp",
                     "has-battery", "has-pv", "has-ev", "fallback-formula-evaluated", "battery-behind-several-inverters"]
 REQUIRED_COUNTERS = ["formulas_evaluated", "balance_checks", "graphs_valid"]
 ASSUMPTIONS = ["formula steps are evaluated synchronously on one assignment (streaming is covered by C05/C06)"]
@@ -138,6 +138,10 @@ def gen(rng: Any, tier: str, i: int) -> Any:
             elif k == "meter":
                 ck = {kinds[c] for c in children[n]}
                 dedicated = len(ck) == 1 and ck <= {"batinv", "pvinv", "ev", "chp"}
+                # the grid meter (only successor of the grid) is never a dedicated device meter, even if all the
+                # devices below it are of one kind: the building load is measured by it as well
+                if dedicated and ck != {"chp"} and children[1] == [n]:
+                    dedicated = False
                 load[n] = 0 if dedicated else rng.choice([0, rng.randint(1, 1000)])
         assigns.append({"own": {str(k): v for k, v in own.items()}, "load": {str(k): v for k, v in load.items()}})
     return {"nodes": nodes, "edges": edges, "assigns": assigns}
@@ -269,7 +273,19 @@ def check(case: dict[str, Any], rec: Any) -> None:
                  "chp": sum(v for n, v in own.items() if kinds[n] == "chp"), "consumer": sum(load.values())}
         truth["producer"] = truth["pv"] + truth["chp"]
         truth["grid"] = truth["consumer"] + truth["producer"] + truth["battery"] + truth["ev"]
+        gsucc = children[1]
+        loaded_single_kind_grid_meter = (
+            len(gsucc) == 1 and kinds[gsucc[0]] == "meter" and load.get(gsucc[0], 0) != 0
+            and len({kinds[c] for c in children[gsucc[0]]}) == 1
+            and {kinds[c] for c in children[gsucc[0]]} <= {"batinv", "pvinv", "ev"})
+        if loaded_single_kind_grid_meter:
+            rec.bucket("grid-meter-over-one-device-kind-with-building-load")
         for fb in (True, False, "primaries-failed"):
+            if fb == "primaries-failed" and loaded_single_kind_grid_meter:
+                # with that meter failed its unmetered load is not observable from any other component: there is
+                # no true total the fallback could be held to (the meters-work passes above are judged)
+                rec.count("primaries-failed-pass-skipped(load only observable at the failed grid meter)")
+                continue
             got: dict[str, float] = {}
             for name, (cls, ids) in gens.items():
                 reg = ChannelRegistry(name="x")
